@@ -34,5 +34,8 @@ Accept(c) == c.ignore = "true" \/ (c.cert = "valid" /\ HasCorrectRoot(c.roots))
 (* named certificate must still be refused (the defect is in the certificate, not in the trust         *)
 (* anchor); for the other certificates the back ends may differ (a leaf used as anchor) and either     *)
 (* answer is a step.                                                                                   *)
-Unspecified(c) == c.roots = "ownleaf" /\ c.ignore # "true" /\ c.cert \notin {"wrongname", "expired", "justexpired"}
+Unspecified(c) == \/ (c.roots = "ownleaf" /\ c.ignore # "true" /\ c.cert \notin {"wrongname", "expired", "justexpired"})
+                  \* a correct root followed by another call to ca_cert: accumulate or replace are both faithful to
+                  \* "a root supplied through the client builder" - for a valid certificate either answer is a step
+                  \/ (c.roots = "der+unrel" /\ c.ignore # "true" /\ c.cert = "valid")
 =============================================================================
